@@ -78,6 +78,14 @@ func TestC01Wire(t *testing.T) {
 				s1.Connect(ConnectOpts{ClientID: "s1", KeepAlive: 600})
 				s2 := w.NewClient("s2", p.Nodes, AckAll)
 				s2.Connect(ConnectOpts{ClientID: "s2", KeepAlive: 600})
+				// subscriptions of a session that is not connected anywhere (created through the node's RPC API, as
+				// waspctl does): they come first in every filter's list and must not cost the live sessions anything
+				for _, f := range append(append([]string{}, c01wFilters...), "a/#", "+/b", "a/b", "#") {
+					for _, n := range w.Nodes {
+						n.DState.Subscriptions().CreateFrom("ghost", n.ID, []byte("_default/"+f), 1)
+					}
+				}
+				w.Step()
 				s2.Subscribe(1, 0, "+/b")
 				s2.Subscribe(2, 0, "#")
 				active := map[string]bool{}
